@@ -59,22 +59,18 @@ fn gen_u(r: &mut Rng) -> u64 {
         _ => r.next() & base,
     }
 }
-fn gen_s(r: &mut Rng, w: u32, force_max: bool) -> i64 {
-    // values representable in w bytes signed, max M has needed_bytes(M)==w  (avoid known defect F1)
+fn gen_s(r: &mut Rng, _w: u32, _force_max: bool) -> i64 {
+    let w = r.below(8) as u32 + 1;
     let hi: i64 = if w == 8 { i64::MAX } else { (1i64 << (8 * w - 1)) - 1 };
     let lo: i64 = if w == 8 { i64::MIN } else { -(1i64 << (8 * w - 1)) };
-    let min_m: i64 = if w == 1 { 0 } else { 1i64 << (8 * (w - 1)) };
-    if force_max {
-        return min_m + (r.next() % ((hi - min_m) as u64 + 1)) as i64;
-    }
-    match r.below(5) {
+    match r.below(8) {
         0 => lo,
-        1 => -1,
-        2 => 0,
-        _ => {
-            let span = (hi as i128 - lo as i128 + 1) as u128;
-            (lo as i128 + (r.next() as u128 % span) as i128) as i64
-        }
+        1 => hi,
+        2 => lo.wrapping_sub(1),
+        3 => hi.wrapping_add(1),
+        4 => -1,
+        5 => 0,
+        _ => { let span = (hi as i128 - lo as i128 + 1) as u128; (lo as i128 + (r.next() as u128 % span) as i128) as i64 }
     }
 }
 fn gen_a(r: &mut Rng, pool: &mut Vec<Vec<u8>>) -> Vec<u8> {
@@ -166,9 +162,7 @@ fn run_case(seed: u64, case: u64, dir: &std::path::Path, verbose: bool) -> Vec<S
         let name = PNAMES[name_i];
         name_i += 1;
         let mut k = r.below(if allow_ref { 5 } else { 4 });
-        if last_in_variant {
-            k = if nstores > 0 && r.below(2) == 0 { 2 } else { 3 };
-        }
+        let _ = last_in_variant;
         if k == 2 && nstores == 0 {
             k = 0;
         }
@@ -186,8 +180,8 @@ fn run_case(seed: u64, case: u64, dir: &std::path::Path, verbose: bool) -> Vec<S
     let nvar = if r.below(2) == 0 { 0 } else { r.below(3) as usize + 1 };
     let variants: Vec<Vec<Prop>> = (0..nvar)
         .map(|_| {
-            let n = r.below(3) as usize + 1;
-            (0..n).map(|i| gen_prop(&mut r, i == n - 1, false)).collect()
+            let n = r.below(4) as usize;
+            (0..n).map(|i| gen_prop(&mut r, i + 1 == n, false)).collect()
         })
         .collect();
     // sort keys among common U/S/A non-constant
